@@ -174,6 +174,9 @@ func UpdateWebSocketHeader(secWebSocketKey, protocol string) []byte {
 	return []byte(webSocketResponseHeaderStr)
 }
 
+// wsMaxPayloadLength ReadWsPayload 接受的单个websocket帧payload的最大长度
+const wsMaxPayloadLength = 16 * 1024 * 1024
+
 func ReadWsPayload(r *bufio.Reader) ([]byte, error) {
 	var h WsHeader
 
@@ -227,6 +230,11 @@ func ReadWsPayload(r *bufio.Reader) ([]byte, error) {
 		}
 
 		h.MaskKey = bele.BeUint32(buf)
+	}
+
+	// 长度字段来自对端，需要限制上限，否则一个包头就可以让我们申请任意大小的内存（或者直接panic）
+	if h.PayloadLength > wsMaxPayloadLength {
+		return nil, fmt.Errorf("header error: payload length too large. length=%d", h.PayloadLength)
 	}
 
 	payload := make([]byte, h.PayloadLength)
